@@ -6,15 +6,12 @@ CONSTANTS
   Scalars <- MCScalars
   FillPos = {3}
   FillW = {1}
-  SetDtypes = {"f8"}
+  SetDtypes = {"i2", "i8", "f2", "f4", "f8"}
   SliceArgs <- MCSliceArgs
   MergeArgs = {2}
   MaxDepth = 3
-  MaxVal = 64
+  MaxVal = 100000
 CHECK_DEADLOCK FALSE
-INVARIANT MulDivIdentity
-INVARIANT NormalTotal
-INVARIANT MomentsScaleInvariant
 INVARIANT WellFormed
 INVARIANT IntHoldsInts
 PROPERTY Independence
